@@ -65,15 +65,26 @@ impl BitmapEvent {
         match self.bpp {
             32 => {
                 // 32 bpp is straight forward
-                Ok(
-                    if self.is_compress {
-                        let mut result = vec![0 as u8; self.width as usize * self.height as usize * 4];
-                        rle_32_decompress(&self.data, self.width as u32, self.height as u32, &mut result)?;
-                        result
-                    } else {
-                        self.data
+                let size = self.width as usize * self.height as usize * 4;
+                if self.is_compress {
+                    let mut result = vec![0 as u8; size];
+                    rle_32_decompress(&self.data, self.width as u32, self.height as u32, &mut result)?;
+                    Ok(result)
+                } else {
+                    if self.data.len() != size {
+                        return Err(Error::RdpError(RdpError::new(RdpErrorKind::InvalidSize, "Invalid size for an uncompressed bitmap")))
                     }
-                )
+                    // uncompressed bitmap are sent bottom-up
+                    let line = self.width as usize * 4;
+                    let mut result = vec![0 as u8; size];
+                    for i in 0..self.height as usize {
+                        let src = (self.height as usize - i - 1) * line;
+                        for j in 0..line {
+                            result[i * line + j] = self.data[src + j];
+                        }
+                    }
+                    Ok(result)
+                }
             },
             16 => {
                 // 16 bpp is more consumer
